@@ -4,7 +4,7 @@ package main
 // reflects line k, a foreground one sees no later line.  Script: 001, our own JOIN of #c, then
 // TOPIC / 332 / MODE +k lines whose effect on the tracker is the line's serial.
 func init() {
-	props["C05"] = &Prop{Gen: c05Gen, Exec: dspExec, Setup: dspSetup, Class: dspClass}
+	props["C05"] = &Prop{Gen: c05Gen, Exec: dspRunChild, Class: dspClass}
 }
 
 func c05Gen(r *Rand, tier string, scale int, emit func(Fields)) {
